@@ -331,8 +331,11 @@ def explore(engine, prop, tier, seed, batch=BATCH_DEFAULT, isolate=None, budget_
     ev = dict(property_id=prop, tier=tier, seed=seed, level=desc['level'], coverage=cov,
               assumptions=desc['assumptions'], wall_s=round(wall, 2),
               violations=len(confirmed_new))
-    os.makedirs(env.EVIDENCE, exist_ok=True)
-    with open(os.path.join(env.EVIDENCE, '%s.json' % prop), 'w') as f:
+    # evidence/<id>.json describes runs against /repo itself; a run pointed elsewhere (VERIF_REPO: scratch worktrees of
+    # the sensitivity tools) writes its description under out/ instead
+    evdir = env.EVIDENCE if env.REPO == os.path.realpath('/repo') else os.path.join(env.OUT, 'evidence-other-tree')
+    os.makedirs(evdir, exist_ok=True)
+    with open(os.path.join(evdir, '%s.json' % prop), 'w') as f:
         json.dump(ev, f, indent=1, default=str)
     for l in lines:
         print(l)
